@@ -299,6 +299,10 @@ class EventMixin (object):
     # processing.  It might make sense to change this.
     handlers = list(self._eventMixin_handlers.get(eventType, []))
     for (priority, handler, once, eid) in handlers:
+      # A one-shot handler fires at most once, ever: it is unsubscribed
+      # before it fires, and skipped if it is not subscribed any more (a
+      # re-entrant raise may have fired it while this delivery held it too)
+      if once and not self.removeListener(eid): continue
       try:
         if classCall:
           rv = event._invoke(handler, *args, **kw)
